@@ -63,27 +63,12 @@ func cmdSlowRead(args []string) error {
 	if len(args) > 5 {
 		rcvbuf, _ = strconv.Atoi(args[5])
 	}
-	d := net.Dialer{Timeout: 10 * time.Second, Control: func(network, address string, c syscall.RawConn) error {
-		return c.Control(func(fd uintptr) {
-			syscall.SetsockoptInt(int(fd), syscall.SOL_SOCKET, syscall.SO_RCVBUF, rcvbuf)
-		})
-	}}
-	var conn net.Conn
-	var err error
-	for i := 0; i < 40; i++ {
-		conn, err = d.Dial("tcp", args[0])
-		if err == nil {
-			break
-		}
-		time.Sleep(50 * time.Millisecond)
-	}
+	c, err := dialRcvbuf(args[0], rcvbuf)
 	if err != nil {
 		fmt.Println("CONNFAIL 0 0 0")
 		return nil
 	}
-	c := conn.(*net.TCPConn)
 	defer c.Close()
-	c.SetNoDelay(true)
 	val := slowValue(size)
 	if err := os.WriteFile(args[4], val, 0644); err != nil {
 		return err
